@@ -211,7 +211,9 @@ func scanRules(c *Ctx, torn bool) {
 		for _, i := range ifsOf(f) {
 			ca := decomposeIf(i)
 			var lessEdge int = -1
-			isCap := func(v ssa.Value) bool { return isFieldLoad(v, "Options", "SegmentSize") }
+			isCap := func(v ssa.Value) bool {
+				return isFieldLoad(v, "Options", "SegmentSize") || paramBoundToField(c, v, "Options", "SegmentSize")
+			}
 			switch {
 			case inFamily(ca.X) && isCap(ca.Y):
 				switch ca.Op {
